@@ -94,13 +94,22 @@ def ceval(n, env, prog=None, depth=0):
     if k == "UnaryOperator":
         v = ceval(s.child(0), env, prog, depth)
         return {"!": lambda x: int(not x), "-": lambda x: -x, "~": lambda x: ~x, "+": lambda x: x}[s["op"]](v)
-    if k == "BinaryOperator" and s.get("op") == "&" and s.get("omacro") in CTYPE:
+    if k == "BinaryOperator" and s.get("op") == "&":
+        # glibc's classification macros: (*__ctype_b_loc())[(int)(c)] & (unsigned short) _ISxxx - identified by the macro name
+        # or, when another macro wraps the use, by the mask enumerator itself
+        name = s.get("omacro") if s.get("omacro") in CTYPE else (s.get("macro") if s.get("macro") in CTYPE else None)
+        if name is None:
+            m_ = s.child(1).strip_all_casts()
+            if m_.k == "DeclRefExpr" and m_.get("decl", {}).get("kind") == "enumconst" and m_["decl"]["name"].startswith("_IS"):
+                cand = "is" + m_["decl"]["name"][3:]
+                if cand in CTYPE:
+                    name = cand
         arr = s.child(0).strip_all_casts()
-        if arr.k == "ArraySubscriptExpr" and any(x.get("callee") == "__ctype_b_loc" for x in arr.child(0).walk()):
+        if name and arr.k == "ArraySubscriptExpr" and any(x.get("callee") == "__ctype_b_loc" for x in arr.child(0).walk()):
             c = ceval(arr.child(1), env, prog, depth)
             if not (-1 <= c <= 255):
                 return 0
-            return int(CTYPE[s["omacro"]](c))
+            return int(CTYPE[name](c))
     if k == "BinaryOperator":
         op = s["op"]
         if op == "&&":
